@@ -176,6 +176,22 @@ def random_behaviour(rng, focus):
         pool += [rng.getrandbits(256) for _ in range(12)]
     ttls = rng.choice([[1, 2, 3], [1, 1, 2, 5, 10, 60], [-5, 0, 1, 2, 3, 5, 10, 3600, 1000000], [2, 2, 2, 3]])
     now, deadlines = 0, []
+    if focus == "C07" and rng.random() < 0.4:
+        # more than 16 distinct contacts for one bucket (live ones get evicted), mixed lifetimes
+        L = hot[0]
+        burst = list(dict.fromkeys(near(rng, selfid, L) for _ in range(rng.randint(15, 24))))
+        pool = list(dict.fromkeys(pool + burst))
+        for p in burst:
+            if rng.random() < 0.8:
+                exp = now + rng.choice([1000, 2000, 2000, 5000, 60000])
+                lines.append("reg p=%s a=%d exp=%d" % (hx(p), rng.randrange(6), exp))
+                deadlines.append(exp)
+            else:
+                ttl = rng.choice([1, 2, 5, 60])
+                lines.append("add c=0 p=%s a=%d ttl=%d" % (hx(p), rng.randrange(6), ttl))
+                deadlines.append(now + 1000 * ttl)
+            if rng.random() < 0.15:
+                lines.append("closest tg=%s k=%d" % (hx(rng.choice(burst)), rng.choice([1, 16, 17, 64])))
     if capheavy:
         # more than 20 distinct providers on chunk 0 (equal lifetimes included: ties at the capacity rule)
         for p in rng.sample(pool, min(len(pool), rng.randint(19, 27))):
@@ -316,19 +332,19 @@ def run(chk):
     hists = model_check(chk, thorough)[kind]
     hists = [h for h in hists if h]
     log("[gen] %d TLC state-cover sequences (%s model)" % (len(hists), kind))
-    cover = rng.sample(hists, min(len(hists), 800 if not thorough else 12000))
+    cover = rng.sample(hists, min(len(hists), 600 if not thorough else 12000))
     run_and_validate(chk, [hist_to_script(h, kind, rng) for h in cover], "tlc-state-cover")
     # the same paths with the real capacities brought down to the model's (fillers), so that the
     # model's overflow behaviours are overflow behaviours of the real constants 16 / 20
-    infl = rng.sample(hists, min(len(hists), 150 if not thorough else 1500))
+    infl = rng.sample(hists, min(len(hists), 40 if not thorough else 1500))
     run_and_validate(chk, [hist_to_script(h, kind, rng, inflate=True) for h in infl], "tlc-state-cover-at-capacity")
     # transition cover: every kind of action appended to a sample of state-cover paths
     ext = []
-    for h in rng.sample(hists, min(len(hists), 70 if not thorough else 1200)):
+    for h in rng.sample(hists, min(len(hists), 40 if not thorough else 1200)):
         for a in EXT[kind]:
-            ext.append(hist_to_script(h, kind, rng, inflate=rng.random() < 0.3, extra=[a]))
+            ext.append(hist_to_script(h, kind, rng, inflate=rng.random() < 0.1, extra=[a]))
     run_and_validate(chk, ext, "tlc-transition-cover")
-    n = 300 if not thorough else 6000
+    n = 250 if not thorough else 6000
     run_and_validate(chk, [random_behaviour(rng, chk.pid) for _ in range(n)], "random-256bit")
     chk.assumptions += ["virtual clock by link-time interposition of steady_clock::now",
                         "buckets_ is read through explicit template instantiation (no source hook); table_ through snapshot_locators()",
